@@ -197,6 +197,15 @@ func VX_C09_equals() {
 		ix1, ix2 = vxIndex(n, P), vxIndex(n, P)
 	}
 	f, g := vxFrame(names, c1, ix1), vxFrame(names, c2, ix2)
+	if vx.HasParam("shared") {
+		// both frames are views of one parent: same column storage, different rows
+		c2 = c1
+		base := vxFrame(names, c1, nil)
+		i1, i2 := make([]uint32, n), make([]uint32, n)
+		copy(i1, ix1)
+		copy(i2, ix2)
+		f, g = base.withIndex(i1), base.withIndex(i2)
+	}
 	eq := true
 	for k := range names {
 		for r := 0; r < n; r++ {
